@@ -159,6 +159,21 @@ fn forward_data<S: AsyncBufRead + Unpin, D: AsyncWrite + Unpin>(
     Poll::Ready(Ok(i.try_into().expect("usize to fit into u64.")))
 }
 
+/// Verification hook: runs the crate-private [`CopyFuture`] over two caller-supplied streams.
+#[cfg(libp2p_verif)]
+pub fn verif_copy<S, D>(
+    src: S,
+    dst: D,
+    max_circuit_duration: Duration,
+    max_circuit_bytes: u64,
+) -> impl Future<Output = io::Result<()>>
+where
+    S: AsyncRead + AsyncWrite + Unpin,
+    D: AsyncRead + AsyncWrite + Unpin,
+{
+    CopyFuture::new(src, dst, max_circuit_duration, max_circuit_bytes)
+}
+
 #[cfg(test)]
 mod tests {
     use std::io::ErrorKind;
